@@ -63,6 +63,7 @@ def facades(*extra_modules):
             repl['np'] = NP
         if 'floyd_warshall' in m.__dict__:
             repl['floyd_warshall'] = fw_facade
+        repl['float'] = S.FLOAT
         specs.append((m, repl))
     with patched(*specs):
         yield
@@ -257,6 +258,10 @@ def family_undiscounted(tier='quick'):
     F.append(Skel('u4-trap2', ['s', 't', 'u', 'g'], {'s': ('go', 'fall', 'hop'), 't': ('go', 'fall'), 'u': ('go',), 'g': ('go',)},
                   {('s', 'go'): ('g',), ('s', 'fall'): ('t',), ('s', 'hop'): ('s', 'g'), ('t', 'go'): ('t', 'u'), ('t', 'fall'): ('u',),
                    ('u', 'go'): ('t',), ('g', 'go'): ('g',)}, absorbing=['g'], init=['s']))
+    # a never-absorbing state inside the support of the initial distribution
+    F.append(Skel('u3-trap-in-init', ['s', 't', 'g'], {'s': ('go',), 't': ('go', 'stay'), 'g': ('go',)},
+                  {('s', 'go'): ('g', 's'), ('t', 'go'): ('t',), ('t', 'stay'): ('t',), ('g', 'go'): ('g',)},
+                  absorbing=['g'], init=['s', 't']))
     F.append(Skel('u2-plain', ['s', 'g'], {'s': ('a', 'b'), 'g': ('a',)},
                   {('s', 'a'): ('s', 'g'), ('s', 'b'): ('g',), ('g', 'a'): ('g',)}, absorbing=['g'], init=['s']))
     return F
